@@ -310,6 +310,30 @@ func c05Pipeline(c *Ctx, p *Prog) {
 					sent = st.Send
 				}
 			}
+		case *ssa.Call:
+			// a helper that queues the event it is given (`t.deliver(ev, stopQ)`)
+			if h := x.Call.StaticCallee(); h != nil && h.Pkg == scan.Pkg && len(h.Blocks) > 0 {
+				eachInstr(h, func(hin ssa.Instruction) {
+					var hs ssa.Value
+					switch y := hin.(type) {
+					case *ssa.Send:
+						hs = y.X
+					case *ssa.Select:
+						for _, st := range y.States {
+							if st.Dir == types.SendOnly {
+								hs = st.Send
+							}
+						}
+					}
+					if pa, isP := hs.(*ssa.Parameter); isP {
+						for i, q := range h.Params {
+							if q == pa && i < len(x.Call.Args) {
+								sent = x.Call.Args[i]
+							}
+						}
+					}
+				})
+			}
 		}
 		if sent == nil {
 			return
